@@ -1663,4 +1663,9 @@ UNITS = {
 
 
 def run_unit(ctx, u):
+    import time
+    t0 = time.process_time()
     UNITS[u['kind']](ctx, u)
+    dt = time.process_time() - t0
+    ctx.stat('cpu_seconds_' + u['kind'], round(dt, 2))
+    ctx.stat_max('cpu_seconds_longest_unit', round(dt, 2))
